@@ -495,3 +495,33 @@ func RefactorSkeleton(seed int64, cfg *Config) *Program {
 	p.Top = &Call{Callee: "TOP"}
 	return p
 }
+
+// SplitIntoFiles moves every declaration out of main.mro into the named
+// include files (in declaration order, so that includes stay acyclic).
+func (p *Program) SplitIntoFiles(names ...string) {
+	if len(names) == 0 {
+		return
+	}
+	p.NFiles = len(names)
+	p.FileNames = append([]string(nil), names...)
+	total := len(p.Structs) + len(p.Stages) + len(p.Pipelines)
+	if p.NFiles > total {
+		p.NFiles = total
+		p.FileNames = p.FileNames[:total]
+	}
+	k := 0
+	assign := func() int {
+		f := k * p.NFiles / total
+		k++
+		return f
+	}
+	for _, s := range p.Structs {
+		s.File = assign()
+	}
+	for _, s := range p.Stages {
+		s.File = assign()
+	}
+	for _, s := range p.Pipelines {
+		s.File = assign()
+	}
+}
